@@ -1603,9 +1603,16 @@ behavior[numpy.power, "Momentum4D", numbers.Real] = (
     lambda v, expo: v.tau2 if expo == 2 else v.tau**expo
 )
 
-behavior["__cast__", VectorNumpy2D] = lambda v: vector.Array(v)
-behavior["__cast__", VectorNumpy3D] = lambda v: vector.Array(v)
-behavior["__cast__", VectorNumpy4D] = lambda v: vector.Array(v)
+
+
+def _cast_numpy(v: typing.Any) -> ak.Array:
+    # the fields of a MomentumNumpy array have generic names: keep its flavor
+    return ak.with_name(vector.Array(v), _class_to_name(type(v)))
+
+
+behavior["__cast__", VectorNumpy2D] = _cast_numpy
+behavior["__cast__", VectorNumpy3D] = _cast_numpy
+behavior["__cast__", VectorNumpy4D] = _cast_numpy
 
 for left in (
     "Vector2D",
